@@ -243,6 +243,9 @@ class Printer:
             return '(' + self.expr(inner[0]) + ')'
         if k == 'SubstNonTypeTemplateParmExpr':
             return self.expr(inner[-1])
+        if k == 'ConstantExpr' and str(n.get('value')) in ('true', 'false') and strip_cv(qual(n['type'])) == 'bool':
+            # a boolean constant expression (`if constexpr` condition) prints as the value clang evaluated it to
+            return '1' if str(n['value']) == 'true' else '0'
         if k in TRANSPARENT:
             return self.expr(inner[0])
         if k == 'IntegerLiteral':
